@@ -40,6 +40,8 @@ class _Resp:
 
 
 class _Opener:
+    raw_trailing = False
+
     def __init__(self):
         self.seen = []
 
@@ -122,11 +124,16 @@ def _hdrs(req):
     return {k.lower(): v for k, v in req.header_items()}
 
 
-def _check_request(req, ret, exp, params, hdr_in):
+def _check_request(req, ret, exp, params, hdr_in, raw_trailing=False):
     u = urlsplit(req.full_url)
     base = '%s://%s' % (u.scheme, u.netloc)
     if base != exp['addr'].rstrip('/'):
         return 'request goes to %r, connection address is %r' % (base, exp['addr'])
+    # the url is address + path: a str address loses its trailing '/' when the connection is created, an address given
+    # inside a tuple / list / dict is used as it is (raw_trailing), so its '/' and the one of the path both remain
+    want_path = ('/' if raw_trailing else '') + '/' + '/'.join(exp['segs'])
+    if u.path != want_path:
+        return 'request goes to path %r, address + path is %r' % (u.path, want_path)
     segs = [s for s in u.path.split('/') if s != '']
     if segs != list(exp['segs']):
         return 'path %r, expected segments %s (prefixes of inner connections outermost)' % (u.path, list(exp['segs']))
@@ -205,7 +212,7 @@ def replay_history(hist):
             return '%s: %d requests reached the opener for one call' % (where, len(op.seen) - n0)
         if params != p0 or hdr != h0:
             return '%s: caller objects were modified: params %r headers %r' % (where, params, hdr)
-        r = _check_request(op.seen[-1], ret, exp, p0, h0)
+        r = _check_request(op.seen[-1], ret, exp, p0, h0, op.raw_trailing)
         if r is not None:
             return '%s: %s' % (where, r)
         # raw_response=True: the response object itself goes through the response processors
@@ -224,6 +231,9 @@ def replay_history(hist):
             return '%s: probe request with a relative path raised %s: %s' % (where, type(ex).__name__, str(ex)[:100])
         u = urlsplit(op.seen[-1].full_url)
         segs = [x for x in u.path.split('/') if x != '']
+        want_rel = '/x' if list(exp['rel']) == ['x'] else ('/' if op.raw_trailing else '') + '/' + '/'.join(exp['rel'])
+        if u.path != want_rel:
+            return '%s: relative request path "x" goes to %r, address + path is %r' % (where, u.path, want_rel)
         if segs != list(exp['rel']):
             return '%s: relative request path "x" goes to %r, expected segments %s' % (where, u.path, list(exp['rel']))
         return None
@@ -235,8 +245,12 @@ def replay_history(hist):
         extra_probe = None
         try:
             if op == 'newconn':
-                c = ch.HttpConn(st['addr'])
+                # the connection data may be the address, a tuple / list of arguments or a dict of arguments
+                form = (len(hist) + n + len(st['addr'])) % 4
+                data = (st['addr'], (st['addr'],), {'address': st['addr']}, [st['addr']])[form]
+                c = ch.HttpConn(data)
                 c.conn_impl.opener = _Opener()
+                c.conn_impl.opener.raw_trailing = form != 0 and st['addr'].endswith('/')
                 conns.append(c)
             elif op == 'wrap':
                 ads = shared_list(st['args']) if st['aslist'] else [_adapter(a) for a in st['args']]
@@ -286,7 +300,7 @@ def replay_history(hist):
                 ret = getattr(conn, st['method'])('/x', data=data, headers=hdr)
                 req = opn.seen[-1]
                 exp = st['exp'][st['conn'] - 1]
-                r = _check_request(req, ret, exp, None, {'H': '1'})
+                r = _check_request(req, ret, exp, None, {'H': '1'}, opn.raw_trailing)
                 if r:
                     return '%s: %s' % (where, r), []
                 if req.get_method() != st['method'].upper():
